@@ -365,4 +365,105 @@ theorem step12 (H : Crypto.Prims) (P : Prims) (L : SealLaws P) (kl : List Keylog
     · cases cl <;> simp at hl
     · obtain ⟨_, _, _, h, _⟩ := hall _ (List.mem_cons_self ..); cases h
 
+-- ------------------------------------------------------------------ any interleaving of the two scripts
+/-- what remains of the two scripts after direction `d` sent a record -/
+def upd (rem : Bool → List DirEv) (d : Bool) (l : List DirEv) : Bool → List DirEv := fun d' => if d' = d then l else rem d'
+
+theorem plainOf_cons (e : DirEv) (r : List DirEv) :
+    Spec.TlsConnection.plainOf (e :: r) = Spec.TlsConnection.plainOf [e] ++ Spec.TlsConnection.plainOf r := by
+  cases e <;> simp [Spec.TlsConnection.plainOf]
+  split <;> simp
+
+theorem sendDir_eq_nil (P : Prims) (L : SealLaws P) (cls : CipherClass) (ver : Bytes) (sd : SDir) (l : List DirEv)
+    (h : sendDir P L cls ver sd l = []) : l = [] := by
+  cases l with
+  | nil => rfl
+  | cons e r => rw [sendDir_cons] at h; cases h
+
+theorem filter_dir_cons_same (r : Session.Rec) (d : Bool) (M : List (Session.Rec × Bool)) :
+    ((r, d) :: M).filter (fun q => q.2 == d) = (r, d) :: M.filter (fun q => q.2 == d) := by
+  simp [List.filter_cons]
+
+theorem filter_dir_cons_other (r : Session.Rec) (d0 d : Bool) (M : List (Session.Rec × Bool)) (h : d ≠ d0) :
+    ((r, d0) :: M).filter (fun q => q.2 == d) = M.filter (fun q => q.2 == d) := by
+  have : (d0 == d) = false := by simpa using fun h' => h h'.symm
+  simp [List.filter_cons, this]
+
+theorem bool_ne (a b : Bool) (h : a ≠ b) : a = !b := by
+  cases a <;> cases b <;> first | rfl | exact absurd rfl h
+
+theorem sget_set_ne (x : Snd) (d0 d : Bool) (v : SDir) (h : d ≠ d0) : (x.set d0 v).get d = x.get d := by
+  cases d0 <;> cases d <;> first | rfl | exact absurd rfl h
+
+/-- TLS ≤ 1.2 after the ServerHello: `Session` over ANY interleaving of the two sides' remaining records (each side's
+    own order kept) exports, per direction, exactly that side's application plaintexts in order (without `-a`) -/
+theorem run_merge12 (H : Crypto.Prims) (P : Prims) (L : SealLaws P) (kl : List Keylog.Key) (cls : CipherClass)
+    (h13 : cls.is13 = false) (macLen : Nat) (ver : Bytes) (hv : ver.length = 2) (M : List (Session.Rec × Bool)) :
+    ∀ (x : Snd) (s : Session.St Dec) (rem : Bool → List DirEv), Ready cls macLen x s →
+      (∀ d, DirInv12 s d (rem d)) → (∀ d, ∀ e ∈ rem d, EvOk1 cls macLen e) →
+      (∀ d, (M.filter fun q => q.2 == d).map (·.1.raw) = sendDir P L cls ver (x.get d) (rem d)) →
+      max x.c.seq x.s.seq + M.length ≤ seqLimit →
+      ∀ d, dirPlain d (Session.run (Pipeline.ops H P kl) false s M).traffic
+        = dirPlain d s.traffic ++ Spec.TlsConnection.plainOf (rem d) := by
+  induction M with
+  | nil =>
+    intro x s rem _ _ _ hfil _ d
+    have := sendDir_eq_nil P L cls ver _ _ (hfil d).symm
+    simp [Session.run, this, Spec.TlsConnection.plainOf]
+  | cons q M' ih =>
+    intro x s rem hs hinv hok hfil hq d
+    obtain ⟨r, d0⟩ := q
+    have h0 := hfil d0
+    rw [filter_dir_cons_same, List.map_cons] at h0
+    cases hrem : rem d0 with
+    | nil => rw [hrem] at h0; cases h0
+    | cons e rest =>
+      rw [hrem, sendDir_cons] at h0
+      simp only [List.cons.injEq] at h0
+      obtain ⟨hraw, htail⟩ := h0
+      have hr : r = ⟨evRaw P L cls ver (x.get d0) e, r.carriers⟩ := by
+        have hraw' : r.raw = evRaw P L cls ver (x.get d0) e := hraw
+        rw [← hraw']
+      simp only [List.length_cons] at hq
+      obtain ⟨g1, g2, g3, g4, g5, g6⟩ := step12 H P L kl cls h13 macLen ver hv x s hs d0 e rest r.carriers
+        (hrem ▸ hinv d0) (hok d0 e (by rw [hrem]; simp)) (by omega)
+      rw [← hr] at g1 g2 g3 g4
+      have hinv' : ∀ d', DirInv12 (Session.handleRecord (Pipeline.ops H P kl) false s r d0) d' (upd rem d0 rest d') := by
+        intro d'
+        by_cases hd : d' = d0
+        · subst hd; simpa [upd] using g2
+        · have hdn : d' = !d0 := bool_ne d' d0 hd
+          have hcc : ccOf (Session.handleRecord (Pipeline.ops H P kl) false s r d0) d' = ccOf s d' := by
+            rw [hdn]; exact g3
+          simp only [upd, hd, if_false]
+          unfold DirInv12
+          rw [hcc]
+          exact hinv d'
+      have hok' : ∀ d', ∀ e' ∈ upd rem d0 rest d', EvOk1 cls macLen e' := by
+        intro d' e' he'
+        by_cases hd : d' = d0
+        · subst hd
+          simp only [upd, if_true] at he'
+          exact hok d' e' (by rw [hrem]; simp [he'])
+        · simp only [upd, hd, if_false] at he'
+          exact hok d' e' he'
+      have hfil' : ∀ d', (M'.filter fun q => q.2 == d').map (·.1.raw)
+          = sendDir P L cls ver ((x.set d0 (evNext P L cls ver (x.get d0) e)).get d') (upd rem d0 rest d') := by
+        intro d'
+        by_cases hd : d' = d0
+        · subst hd
+          rw [Lemmas.RecLayer.sget_set]
+          simpa [upd] using htail
+        · rw [sget_set_ne _ _ _ _ hd]
+          simp only [upd, hd, if_false]
+          rw [← hfil d', filter_dir_cons_other _ _ _ _ hd]
+      have := ih _ _ (upd rem d0 rest) g1 hinv' hok' hfil' (by omega) d
+      simp only [Session.run, List.foldl_cons] at this ⊢
+      rw [this, g4 d]
+      by_cases hd : d = d0
+      · subst hd
+        simp only [upd, if_true, hrem]
+        rw [plainOf_cons e rest, List.append_assoc]
+      · simp [upd, hd]
+
 end TLX.Lemmas.Capstone
